@@ -35,6 +35,10 @@ THE SOFTWARE.
 #include <amgcl/util.hpp>
 #include <amgcl/relaxation/detail/ilu_solve.hpp>
 
+#ifdef AMGCL_VERIF
+namespace amgcl_verif { struct access; }
+#endif
+
 namespace amgcl {
 namespace relaxation {
 
@@ -240,6 +244,9 @@ struct ilu0 {
     }
 
     private:
+#ifdef AMGCL_VERIF
+        friend struct ::amgcl_verif::access;
+#endif
         std::shared_ptr<ilu_solve> ilu;
 
 };
